@@ -1,6 +1,7 @@
 /* Units on path resolution (C11, C14 registration): parse_title, cfg_getopt / cfg_getopt_secidx / cfg_getsec on a
  * two-level tree, cfg_getopt_array.  Oracle: step-by-step navigation with the single-level accessors, written from the
  * statement (spec_resolve below).  Paths: every byte string up to PATHN bytes. */
+#define CFGV_DUP_FAIL_GHOST
 #include "ref_strings.h"
 #include "common.h"
 
@@ -42,8 +43,9 @@ void h_parse_title(void)
 	in_path[PATHN] = 0;
 	for (unsigned i = 0; i <= PATHN; i++) copy[i] = in_path[i];
 	ok = spec_title(in_path, want, &wc);
+	cfgv_dup_fail = nondet_bool();       /* ghost: the one copy the function makes fails (the unit runs without other allocation failures) */
 	r = parse_title(in_path, &len);
-	CHECK("C11", (r != NULL) == (ok != 0) || (r == NULL && ok), "a title qualifier is accepted exactly when it is well-formed (allocation permitting)");
+	CHECK("C11,C18", (r != NULL) == (ok != 0 && !cfgv_dup_fail), "a title qualifier is accepted exactly when it is well-formed (and its copy could be allocated)");
 	CHECK("C11", ok || r == NULL, "malformed quoting (other escapes, missing closing quote) and empty titles are refused");
 	if (r) {
 		CHECK("C11", strcmp(r, want) == 0, "the title is the qualifier text: verbatim up to '|', or unquoted with \\' and \\\\ unescaped");
@@ -65,12 +67,25 @@ static int k_secflags, k_ctxflags;
 static cfg_t t_root, t_sec0, t_sec1;
 static cfg_t *const t_secp[2] = { &t_sec0, &t_sec1 };
 #define t_sec(i) (*t_secp[i])
-static cfg_opt_t t_rootopts[3], t_secopts0[2], t_secopts1[2];
+static cfg_opt_t t_rootopts[3], t_secopts0[3], t_secopts1[3];
 static cfg_value_t t_val0, t_val1, *t_vals[2];
+#ifdef TREE_DEEP      /* a third level: s { b ; t { c } }  (t a single section with its one instance) */
+static cfg_t t_sub0, t_sub1; static cfg_opt_t t_subopts0[2], t_subopts1[2]; static cfg_value_t t_subval0, t_subval1, *t_subvals0[1], *t_subvals1[1];
+#endif
 static char t_title[2][2];
 static void mk_one(cfg_t *sec, cfg_opt_t *opts, cfg_value_t *val, unsigned i)
 {
 	opts[0].name = "b"; opts[0].type = CFGT_INT; opts[1].name = NULL; opts[1].type = CFGT_NONE;
+#ifdef TREE_DEEP
+	{
+		cfg_t *sub = i ? &t_sub1 : &t_sub0; cfg_opt_t *so = i ? t_subopts1 : t_subopts0; cfg_value_t *sv = i ? &t_subval1 : &t_subval0; cfg_value_t **svs = i ? t_subvals1 : t_subvals0;
+		so[0].name = "c"; so[0].type = CFGT_INT; so[1].name = NULL;
+		sub->name = "t"; sub->flags = k_ctxflags; sub->errfunc = cfgv_errfunc; sub->opts = so;
+		sv->section = sub; svs[0] = sv;
+		opts[1].name = "t"; opts[1].type = CFGT_SEC; opts[1].flags = 0; opts[1].nvalues = 1; opts[1].values = svs;
+		opts[2].name = NULL; opts[2].type = CFGT_NONE;
+	}
+#endif
 	sec->name = "s"; sec->flags = k_ctxflags; sec->errfunc = cfgv_errfunc; sec->opts = opts;
 	if (k_secflags & CFGF_TITLE) { t_title[i][0] = nondet_char(); __CPROVER_assume(t_title[i][0] != 0); t_title[i][1] = 0; sec->title = t_title[i]; }
 	val->section = sec;
@@ -92,7 +107,10 @@ static _Bool name_eq(const char *p, unsigned n, char name, _Bool nocase)
 enum { RS_NONE = 0, RS_OK = 1, RS_SILENT = 2 };
 /* reference: walk one level at a time.  want_section: the whole path names a section instance (cfg_getsec/cfg_rmsec);
  * otherwise its last component names an option.  Results: *ropt, *ridx (instance for want_section). */
-static int spec_resolve(const char *path, _Bool want_section, cfg_opt_t **ropt, long *ridx)
+static cfg_t *g_rsec_dummy;
+static int spec_resolve2(const char *path, _Bool want_section, cfg_opt_t **ropt, long *ridx, cfg_t **rsec);
+static int spec_resolve(const char *path, _Bool want_section, cfg_opt_t **ropt, long *ridx) { return spec_resolve2(path, want_section, ropt, ridx, &g_rsec_dummy); }
+static int spec_resolve2(const char *path, _Bool want_section, cfg_opt_t **ropt, long *ridx, cfg_t **rsec)
 {
 	const char *p = path; cfg_t *cur = &t_root; int depth = 0;
 	_Bool nocase = (k_ctxflags & CFGF_NOCASE) != 0;
@@ -104,16 +122,24 @@ static int spec_resolve(const char *path, _Bool want_section, cfg_opt_t **ropt, 
 		if (!want_section && p[n] == 0) {
 			/* last component: an option of the current level */
 			if (depth == 0) { if (name_eq(p, n, 'a', nocase)) *ropt = &t_rootopts[0]; else if (name_eq(p, n, 's', nocase)) *ropt = &t_rootopts[1]; }
-			else if (name_eq(p, n, 'b', nocase)) *ropt = &cur->opts[0];
+			else if (depth == 1 && name_eq(p, n, 'b', nocase)) *ropt = &cur->opts[0];
+#ifdef TREE_DEEP
+			else if (depth == 1 && name_eq(p, n, 't', nocase)) *ropt = &cur->opts[1];
+			else if (depth == 2 && name_eq(p, n, 'c', nocase)) *ropt = &cur->opts[0];
+#endif
 			return *ropt ? RS_OK : RS_NONE;
 		}
 		if (n == 0) return RS_NONE;                           /* stray separator / qualifier sign */
+		_Bool inner = 0;
 		if (depth == 0 && name_eq(p, n, 's', nocase)) opt = &t_rootopts[1];
+#ifdef TREE_DEEP
+		if (depth == 1 && name_eq(p, n, 't', nocase)) { opt = &cur->opts[1]; inner = 1; }
+#endif
 		if (!opt) return RS_NONE;                             /* missing name, or not a section */
 		if (p[n] != '=') idx = 0;                             /* unqualified: the first (or only) instance */
 		else {
 			char title[PATHN + 1]; unsigned used = 0;
-			if (!(k_secflags & CFGF_MULTI)) return RS_NONE;     /* qualifier on a single section */
+			if (inner || !(k_secflags & CFGF_MULTI)) return RS_NONE;     /* qualifier on a single section */
 			p += n + 1; n = 0;
 			if (!spec_title(p, title, &used)) return RS_NONE;  /* empty or malformed qualifier */
 			if (p[0] == '\'' && p[used] != 0 && p[used] != '|') return RS_SILENT;   /* text glued to a closing quote: not judged */
@@ -132,15 +158,20 @@ static int spec_resolve(const char *path, _Bool want_section, cfg_opt_t **ropt, 
 			}
 			n = used;
 		}
-		if (idx < 0 || idx >= NSEC) { if (want_section && p[n] == 0 && opt) { *ropt = opt; *ridx = idx < 0 ? -1 : idx; } return RS_NONE; }
-		cur = t_secp[idx]; depth++;
+		if (idx < 0 || idx >= (inner ? 1 : NSEC)) { if (want_section && p[n] == 0 && opt) { *ropt = opt; *ridx = idx < 0 ? -1 : idx; } return RS_NONE; }
+		*rsec = inner ? cur->opts[1].values[0]->section : t_secp[idx];
+		cur = *rsec; depth++;
 		p += n;
 		if (want_section && *p == 0) { *ropt = opt; *ridx = idx; return RS_OK; }
 		if (*p != '|') return RS_SILENT;
 		p++;
 		if (*p == '|') return RS_SILENT;                          /* duplicated separators in the middle: not judged */
 		if (*p == 0) return RS_NONE;                              /* stray separator at the end */
+#ifdef TREE_DEEP
+		if (depth > 2) return RS_NONE;
+#else
 		if (depth > 1) return RS_NONE;                            /* the tree has two levels */
+#endif
 	}
 }
 
@@ -188,17 +219,17 @@ static void b_getsec(void)
 {
 	cfg_opt_t *want; long wi; int verdict; cfg_t *got;
 	mk_tree(); path_input();
-	verdict = spec_resolve(in_path, 1, &want, &wi);
+	cfg_t *wsec = NULL;
+	verdict = spec_resolve2(in_path, 1, &want, &wi, &wsec);
 	got = cfg_getsec(&t_root, in_path);
 	if (verdict != RS_SILENT) {
-		/* the tail after the last separator: empty (stray separator at the end) or starting with '=' (stray qualifier sign) */
-		int last = -1; _Bool stray_tail;
-		for (int i = 0; i < PATHN; i++) if (in_path[i] == '|') last = i;
-		stray_tail = last >= 1 && (in_path[last + 1] == 0 || in_path[last + 1] == '=');
+		/* a component after a separator that is empty (stray separator at the end) or starts with '=' (stray qualifier sign) */
+		_Bool stray_tail = 0;
+		for (int i = 1; i < PATHN; i++) if (in_path[i] == '|' && (in_path[i + 1] == 0 || in_path[i + 1] == '=')) stray_tail = 1;
 		if (stray_tail && verdict == RS_NONE)
 			KFCHECK("C11-section-path-stray-tail-resolves", "C11", got == NULL, "a section path with a stray separator or '=' after its last step does not resolve");
 		else
-			CHECK("C11", got == (verdict == RS_OK ? t_secp[wi] : NULL), "a section path addresses exactly the instance reached by walking the tree one level at a time (unqualified = first instance)");
+			CHECK("C11", got == (verdict == RS_OK ? wsec : NULL), "a section path addresses exactly the instance reached by walking the tree one level at a time (unqualified = first instance)");
 	}
 }
 void h_getsec_path(void)
